@@ -129,10 +129,10 @@ Fixpoint idx {A} (n : nat) (l : list A) := match l with [] => [] | x :: t => (n,
 Definition res := Eval vm_compute in
   flat_map (fun p => let '(k, (c, sc)) := p in
      let out := run sc c in
-     let ms := mon_all sc c out in
+     let ms := mon_all_ext sc c out in
      (* second run from the final state: histories *)
      let out2 := run sc (out_final out) in
-     let ms2 := mon_all sc (out_final out) out2 in
+     let ms2 := mon_all_ext sc (out_final out) out2 in
      (* a run outside WF / inside the known finding is reported as all-true *)
      let ms := if okb sc c out then ms else map (fun _ => true) ms in
      let ms2 := if okb sc c out && okb sc (out_final out) out2 then ms2 else map (fun _ => true) ms2 in
@@ -158,7 +158,7 @@ os.makedirs(d, exist_ok=True)
 open(d + "/f.v", "w").write(src)
 p = subprocess.run(["coqc", "-Q", THEORIES, "CliUtils", "f.v"], cwd=d, capture_output=True, text=True)
 out = p.stdout + p.stderr
-NAMES = ["C01", "C02", "C03", "C04", "C05", "C10", "C11", "C12", "C13", "C04obs", "C03fixpoint"]
+NAMES = ["C01", "C02", "C03", "C04", "C05", "C10", "C11", "C12", "C13", "C04obs", "C06p", "C03fixpoint"]
 if "Error" in out: print(out[-2000:])
 flat = " ".join(out.split())
 for m in re.finditer(r"\((\d+), \[([a-z; ]+)\], \[([a-z; ]+)\]\)", flat):
